@@ -972,3 +972,82 @@ def filter_loops_to_comprehensions(stmts: list) -> list:
             out.append(a)
             i += 1
     return out
+
+
+def inclusion_exclusion_to_intersection(stmts: list) -> list:
+    """`len(A | B) < len(A) + len(B)` (also `>` with the sides swapped, `!=`, `A.union(B)`, and with the merged size held in a local assigned
+    once) asks whether two sets overlap: it is rewritten to `len(A & B) != 0`; `==` / `>=` / `<=` (no element lost) to `len(A & B) == 0`.
+    Returns a new top-level statement list; changed statements are copies."""
+    import copy
+
+    def union_of(e):
+        if isinstance(e, ast.Call) and isinstance(e.func, ast.Name) and e.func.id == "len" and len(e.args) == 1 and not e.keywords:
+            u = e.args[0]
+            if isinstance(u, ast.BinOp) and isinstance(u.op, ast.BitOr):
+                return u.left, u.right
+            if isinstance(u, ast.Call) and isinstance(u.func, ast.Attribute) and u.func.attr == "union" and len(u.args) == 1 and not u.keywords:
+                return u.func.value, u.args[0]
+        return None
+
+    def len_sum(e):
+        if isinstance(e, ast.BinOp) and isinstance(e.op, ast.Add):
+            xs = []
+            for s in (e.left, e.right):
+                if isinstance(s, ast.Call) and isinstance(s.func, ast.Name) and s.func.id == "len" and len(s.args) == 1 and not s.keywords:
+                    xs.append(s.args[0])
+            if len(xs) == 2:
+                return xs
+        return None
+
+    assigned: dict = {}
+    for st in stmts:
+        for n in ast.walk(st):
+            if isinstance(n, ast.Name) and isinstance(n.ctx, ast.Store):
+                assigned[n.id] = assigned.get(n.id, 0) + 1
+    held = {}
+    for st in stmts:
+        if isinstance(st, ast.Assign) and len(st.targets) == 1 and isinstance(st.targets[0], ast.Name) and assigned.get(st.targets[0].id) == 1 and union_of(st.value):
+            held[st.targets[0].id] = st.value
+
+    class T(ast.NodeTransformer):
+        changed = False
+
+        def visit_Compare(self, node):
+            self.generic_visit(node)
+            if len(node.ops) != 1:
+                return node
+            l, r, op = node.left, node.comparators[0], node.ops[0]
+            l2 = held.get(l.id, l) if isinstance(l, ast.Name) else l
+            r2 = held.get(r.id, r) if isinstance(r, ast.Name) else r
+            if union_of(l2) and len_sum(r2):
+                u, s, o = union_of(l2), len_sum(r2), op
+            elif union_of(r2) and len_sum(l2):
+                u, s = union_of(r2), len_sum(l2)
+                o = {ast.Lt: ast.Gt, ast.Gt: ast.Lt, ast.LtE: ast.GtE, ast.GtE: ast.LtE}.get(type(op), type(op))()
+            else:
+                return node
+            d = ast.dump
+            if {d(u[0]), d(u[1])} != {d(s[0]), d(s[1])} or d(u[0]) == d(u[1]):
+                return node
+            if isinstance(o, (ast.Lt, ast.NotEq)):
+                new_op = ast.NotEq()
+            elif isinstance(o, (ast.Eq, ast.GtE)):
+                new_op = ast.Eq()
+            else:
+                return node
+            inter = ast.Call(func=ast.Name(id="len", ctx=ast.Load()), args=[ast.BinOp(left=copy.deepcopy(u[0]), op=ast.BitAnd(), right=copy.deepcopy(u[1]))], keywords=[])
+            new = ast.Compare(left=inter, ops=[new_op], comparators=[ast.Constant(value=0)])
+            ast.copy_location(new, node)
+            ast.fix_missing_locations(new)
+            T.changed = True
+            return new
+
+    out = []
+    for st in stmts:
+        if any(isinstance(n, ast.Compare) for n in ast.walk(st)):
+            T.changed = False
+            c = T().visit(copy.deepcopy(st))
+            out.append(c if T.changed else st)
+        else:
+            out.append(st)
+    return out
